@@ -85,6 +85,22 @@ Proof.
   now apply (vers_fold_zdel S s k (h_ver h) (fun x : Z * bytes => snd x)).
 Qed.
 
+Lemma vers_el_del_gen (S : Z -> Prop) s t k v : vers_in S s -> vers_in S (el_del_gen s t k v).
+Proof.
+  intros [A B]. split; [exact A|]. intros t' k' v' sb' x. rewrite el_get_del_gen. destruct (gen_eqb _ _); [discriminate | apply B].
+Qed.
+Lemma vers_ldelete (S : Z -> Prop) s ts k h ud : vers_in S s -> vers_in S (ldelete Compact s ts k h ud).
+Proof.
+  intros V. unfold ldelete. destruct (h_ver h <? ts); [now apply vers_meta_del|].
+  destruct (list_meta_of ud) as [[hd tl] n]. apply (vers_fold_del S TL k (h_ver h) (fun i : Z => SI i)). now apply vers_meta_del.
+Qed.
+Lemma vers_zrem_all (S : Z -> Prop) s ts k h ud : S (h_ver h) -> vers_in S s -> vers_in S (fst (zrem_all Compact s ts k h ud)).
+Proof.
+  intros Hh V. unfold zrem_all. destruct (h_ver h <? ts); [cbn [fst]; now apply vers_meta_del|].
+  pose proof (vers_zrem_entries S s k h ud (zidx s k (h_ver h)) Hh V) as X.
+  destruct (zrem_entries s k h ud (zidx s k (h_ver h))) as [s1 r]. cbn [fst] in X. destruct r; exact X.
+Qed.
+
 Section Step.
   Variables (S : Z -> Prop) (ts : Z).
   Let S' := fun v => S v \/ v = ts.
@@ -187,10 +203,17 @@ Section Step.
       + unfold coll_set_expire. destruct (coll_header Compact s ts TL k) as [[h ud] ex] eqn:E. destruct ud as [[a b]|]; cbn [fst]; auto.
         destruct ex; cbn [fst]; auto; unfold set_expire; destruct (0 >=? max_u32 - 1); cbn [fst]; auto;
           apply vers_meta_put; auto; cbn; eapply hdr_ver; eauto.
-    - (* clear *) destruct t; cbn [fst]; auto; unfold coll_clear;
-        match goal with |- context [coll_header ?p ?s ?ts ?t ?k] => destruct (coll_header p s ts t k) as [[h ud] ex] end;
-        destruct (not_exist_or_expired ud ex); cbn [fst]; auto;
-        match goal with |- context [if ?c then _ else _] => destruct c end; cbn [fst]; auto; now apply vers_meta_del.
+    - (* clear *) destruct t; [cbn [fst]; auto|..]; unfold coll_clear;
+        match goal with |- context [coll_header ?p ?s ?ts ?t ?k] => destruct (coll_header p s ts t k) as [[h ud] ex] eqn:E end;
+        (destruct (not_exist_or_expired ud ex) eqn:N; [cbn [fst]; auto|]);
+        (match goal with |- context [if ?c =? 0 then _ else _] => destruct (c =? 0) eqn:Z0 end; [cbn [fst]; auto|]);
+        (destruct (h_ver h <? ts); [cbn [fst]; now apply vers_meta_del|]).
+      + cbn [fst]. apply vers_el_del_gen. now apply vers_meta_del.
+      + cbn [fst]. apply vers_el_del_gen. now apply vers_meta_del.
+      + assert (Hh : S' (h_ver h)) by (destruct ud as [[a b]|]; [eapply hdr_ver; eauto | destruct ex; discriminate]).
+        pose proof (vers_zrem_all S' s ts k h ud Hh V') as X.
+        destruct (zrem_all Compact s ts k h ud) as [s1 n]. cbn [fst] in *. exact X.
+      + cbn [fst]. now apply vers_ldelete.
     - (* hset *) now apply vers_do_hset.
     - (* hmset *) unfold do_hmset. destruct fvl; cbn [fst]; auto. destruct (coll_prepare Compact s ts TH k) as [[h ud] ex] eqn:E. cbn [fst].
       pose proof (prep_ver _ _ _ _ _ _ V E) as Hh. apply vers_incr_size; auto. now apply vers_fold_put.
@@ -249,7 +272,7 @@ Section Step.
     - (* ltrim *) unfold do_ltrim. destruct (coll_header Compact s ts TL k) as [[h ud] ex] eqn:E.
       destruct (not_exist_or_expired ud ex) eqn:N; cbn [fst]; auto. destruct (list_meta_of ud) as [[hd tl] llen]. cbv zeta.
       match goal with |- context [if ?c then _ else _] => destruct c end.
-      + cbn [fst]. destruct (llen =? 0); auto. now apply vers_meta_del.
+      + cbn [fst]. destruct (llen =? 0); auto. now apply vers_ldelete.
       + match goal with |- context [list_set_meta ?x ?y ?z ?u ?w] => destruct (list_set_meta x y z u w) as [s2|] eqn:LS end; cbn [fst]; auto.
         eapply vers_list_set_meta; eauto.
         * destruct ud as [[a0 b0]|]; [eapply hdr_ver; eauto | destruct ex; discriminate].
@@ -265,7 +288,9 @@ Section Step.
       destruct ex; cbn [fst]; auto. cbv zeta. destruct (size_of ud =? 0) eqn:Z0; cbn [fst]; auto.
       assert (Hh : S' (h_ver h)) by (destruct ud as [[a0 b0]|]; [eapply hdr_ver; eauto | simpl in Z0; discriminate]).
       match goal with |- context [if ?c then _ else _] => destruct c end.
-      { destruct (not_exist_or_expired ud false); cbn [fst]; auto. now apply vers_meta_del. }
+      { destruct (not_exist_or_expired ud false); [cbn [fst]; auto|].
+        pose proof (vers_zrem_all S' s ts k h ud Hh V') as X.
+        destruct (zrem_all Compact s ts k h ud) as [s1 n]. cbn [fst] in *. exact X. }
       match goal with |- context [if ?c then _ else _] => destruct c end; cbn [fst]; auto.
       match goal with |- context [if ?c then _ else _] => destruct c end; [cbn [fst]; apply vers_incr_size; auto | now apply vers_zrem_entries].
   Qed.
